@@ -420,6 +420,14 @@ Definition chk (b : bool) : bool := b.
       if 'err' in o['impl'] or 'err' in o['ref'] or o['impl']['ok'] != o['ref']['ok']:
         chk.violation('oracle', 'a history of %d calls of an nnx.vmap-ed function under nnx.split_rngs (%s form, only=%s) differs from the per-index loop with keys split(stream(), n)[i], or '
                       'leaves the Rngs in another state than (key, count + 1 per call)' % (c['ncalls'], c['form'], c['only']), {'case': c, 'observed': o})
+  ba = common.run_impl('impl_c08_extra.py', {'bare_alias': True})['bare_alias']
+  for name, r in ba.items():
+    chk.count({'bare_variable_alias': name}, True)
+    if name == '_consistent':
+      if 'err' in r or r['ok'] != [0.0, 2.0, 4.0]:
+        chk.violation('oracle', 'a bare Variable passed twice under the same axis is not accepted as one object', {'observed': r})
+    elif 'err' not in r or 'nconsistent aliasing' not in r.get('msg', ''):
+      chk.violation('oracle', 'one Variable reached under two different axis specifications (%s) was not rejected as inconsistent aliasing' % name, {'observed': r})
   chk.notes['stats'] = stat
   chk.cov['rule'] = ('modules with 1-5 Variables (5 types incl. a subclass, top-level and nested paths) x StateAxes of 0-4 (filter, axis 0 / 1 / None / Carry) entries with and without a catch-all x '
                      'non-square shapes of rank 0-3 x integer bodies (add expression to a Variable, scale, set carry; sums, mapped input, carry) x lengths 1-4 x reverse; losses = random polynomials, '
